@@ -439,13 +439,10 @@ def check_result(cfg, rr: RunResult, out: Outcome, tag: str, step: int, fault=No
 
     # ---- S: status
     conv = bool(info["converged"])
-    last_completed = completed == info["number_iterations"] + 1
     reasons = []
     if conv:
         if fired or organic:
             reasons.append("inner-step-failed")
-        if not last_completed:
-            reasons.append("last-iteration-incomplete")
         if completed and not criteria_met(cfg, hist, dist):
             reasons.append("criteria-not-met")
     for r in reasons[:1]:
